@@ -325,7 +325,7 @@ def plot(input_fits, output_dir=None, select_format=("N", 1), plot_max=None,
                 for j in range(flux.shape[1]):
                     lines.append(np.column_stack([_to_value(s.wav), _to_value(flux)[:, j]]))
                     if isinstance(color[color_type], list):
-                        colors.append(color[color_type][j])
+                        colors.append(color[color_type][j % len(color[color_type])])
                     else:
                         colors.append(color[color_type])
             else:
